@@ -157,3 +157,6 @@ Proof.
   induction a as [|a0 a IH]; intros x; destruct x as [|x0 x]; simpl; try ring.
   rewrite IH. ring.
 Qed.
+
+Lemma nth_repeat_q (v : Q) n j : (j < n)%nat -> nth j (repeat v n) 0 = v.
+Proof. revert j. induction n as [|n IH]; intros [|j] H; cbn [repeat nth]; try lia; auto. apply IH. lia. Qed.
